@@ -548,6 +548,7 @@ def run(ctx):
         "Some/None incumbents (exhaustive over that finite space), must-call analysis of every HeuristicPopulation::add_all "
         "impl (each offered individual reaches the comparison on every path), ordering of extend ≺ sort(total_order(a,b)) ≺ "
         "truncate in Elitism, and use of Rosomaxa's elite only through its add/ranked/select API.")
+    ctx.explanation += ' The elite of the self-organising population is built without maybe_change, followed through helpers (A1); Rosomaxa::add_all batch provenance is decided in chain and loop form.'
     ctx.not_decided = ("size bounds along histories, selection non-emptiness, the seeded-solve corollary, std contracts of "
                        "sort_by/dedup_by/truncate (trusted: they never remove index 0 of a non-empty sorted vector).")
     ctx.assumptions += ["HeuristicObjective::total_order is a total preorder (C09)", "std Vec::sort_by/dedup_by/truncate contracts"]
